@@ -259,9 +259,9 @@ fn run_one<H: HK>(rep: &mut Report, depth: usize, two_piece_max: usize) {
 
 pub fn run(tier: &str, config: &str) -> Report {
     let mut rep = Report::new("C08", tier, config);
-    let depth: usize = std::env::var("VH_DEPTH").ok().and_then(|s| s.parse().ok()).unwrap_or(if tier == "thorough" { 6 } else { 5 });
-    rep.rule = format!("every valid history of {} operations over {{update(inst, l): l in {{0,1,B-1,B,B+1,2B,2B+1,3B+5}}, clone (once; afterwards both instances are driven), reset, Digest::finalize_reset, FixedOutput::finalize_fixed_reset (in place), finalize}} with <= 2 live instances, executed from scratch on the real hasher (no state merging); the clone absorbs a different byte line after the fork point; at every finalize*/end of history the digest is compared with the one-shot digest of the same implementation and with vref; plus every two-piece split (a,b) with a+b <= 3B+1. `states` = distinct model states (byte line, fork point, length) at which digests were compared, `transitions` = operations executed.", depth);
-    macro_rules! go { ($k:ty) => { run_one::<$k>(&mut rep, depth, 3 * <$k as HK>::BLOCK + 1); }; }
+    let depth: usize = std::env::var("VH_DEPTH").ok().and_then(|s| s.parse().ok()).unwrap_or(if tier == "thorough" { 6 } else { 4 });
+    rep.rule = format!("every valid history of {} operations over {{update(inst, l): l in {{0,1,B-1,B,B+1,2B,2B+1,3B+5}}, clone (once; afterwards both instances are driven), reset, Digest::finalize_reset, FixedOutput::finalize_fixed_reset (in place), finalize}} with <= 2 live instances, executed from scratch on the real hasher (no state merging); the clone absorbs a different byte line after the fork point; at every finalize*/end of history the digest is compared with the one-shot digest of the same implementation and with vref; plus every two-piece split (a,b) with a+b <= 3B+1. `states` = distinct model states (byte line, fork point, length) at which digests were compared + states of the keyed phase, `transitions` = operations executed. Keyed phase: explicit-state BFS on the real hasher objects to a fixpoint inside a length window (key = model state + behavioural fingerprint: digest of a clone and digest of a clone after B+1 more bytes): (1) one instance, update(l) for every l in 0..=B+1 and 2B-1,2B,2B+1,3B+5, reset, finalize_reset, finalize_fixed_reset, window 3B+5; (2) clone allowed, two live instances, block-relative lengths, every operation on either instance; oracle on every created state (and on the untouched other instance).", depth);
+    macro_rules! go { ($k:ty) => { run_one::<$k>(&mut rep, depth, 3 * <$k as HK>::BLOCK + 1); crate::c08k::run_one::<$k>(&mut rep, tier == "thorough"); }; }
     go!(KBlake224); go!(KBlake256); go!(KBlake384); go!(KBlake512);
     go!(KGroestl224); go!(KGroestl256); go!(KGroestl384); go!(KGroestl512);
     go!(KJh224); go!(KJh256); go!(KJh384); go!(KJh512);
